@@ -347,6 +347,7 @@ end DFA
 /-! ## line protocol
 
 `c15 dump  <re>`                      → dump of `toNFA re` (must equal `NFA::verif_dump` of the implementation)
+`c15 dumpmap <k> <re>`                → dump of `(toNFA re).tagsMap (· + k)` (`tags_map(|t| t + k)`)
 `c15 match <re> | <hex> …`            → `Re.matchB` per word (`1`/`0`)
 `c15 run   <nfa> | <hex> …`           → per word the state reached by the model DFA: `dead` or
                                          `<accepting><terminal>:<tags>` (e.g. `10:1,2`)
@@ -547,6 +548,10 @@ def handle : List String → String
     match parseRe 10000 toks with
     | some (e, []) => showNFA e.toNFA
     | _ => "bad-re"
+  | "dumpmap" :: k :: toks =>
+    match parseRe 10000 toks, k.toNat? with
+    | some (e, []), some k => showNFA (e.toNFA.tagsMap (· + k))
+    | _, _ => "bad-re"
   | "match" :: toks =>
     let (l, r) := splitBar toks
     match parseRe 10000 l, r.mapM Proto.unhex with
